@@ -1148,10 +1148,12 @@ struct Digit {
 
         ++index;
 
+        // Ties go to the even digit; with no digit above the dropped one, that digit is zero.
         const bool round =
             (((*number > DigitUtils::DigitChar::Five) ||
               ((*number == DigitUtils::DigitChar::Five) &&
-               (round_up || ((SizeT32(stream.First()[index] - DigitUtils::DigitChar::Zero) & 1U) == 1U)))));
+               (round_up ||
+                ((number < last) && ((SizeT32(stream.First()[index] - DigitUtils::DigitChar::Zero) & 1U) == 1U))))));
 
         if (round) {
             ++number;
@@ -1161,7 +1163,10 @@ struct Digit {
                 ++number;
             }
 
-            if ((number > last) || (*number == DigitUtils::DigitChar::Nine)) {
+            if (number > last) {
+                // The carry leaves the digits: the caller places it.
+                power_increased = true;
+            } else if (*number == DigitUtils::DigitChar::Nine) {
                 power_increased         = true;
                 stream.Storage()[index] = DigitUtils::DigitChar::One;
             } else {
